@@ -247,6 +247,8 @@ pub mod context;
 pub mod server;
 pub mod transport;
 pub(crate) mod util;
+#[cfg(tarpc_verif)]
+pub mod verif;
 
 pub use crate::transport::sealed::Transport;
 
